@@ -170,6 +170,9 @@ type World struct {
 	BindLog  []Binding
 	uidSeq   int
 	WithTApp bool
+	// RealLoop: the plugin's own Run() loop workers consume release events (concurrent engine); the harness
+	// does not mirror the channel.
+	RealLoop bool
 }
 
 // NewWorld creates an empty world (no plugin yet).
@@ -208,6 +211,8 @@ func TAppCRD() *extv1.CustomResourceDefinition {
 
 // NewUID returns a fresh pod UID.
 func (w *World) NewUID() string {
+	w.mu.Lock()
+	defer w.mu.Unlock()
 	w.uidSeq++
 	return fmt.Sprintf("uid-%04d", w.uidSeq)
 }
@@ -589,7 +594,9 @@ func (w *World) Deliver(res string, drop bool) (Event, bool) {
 				_ = w.Plugin.DeletePod(e.Old.(*corev1.Pod))
 			}
 		}
-		w.DrainReleaseChan()
+		if !w.RealLoop {
+			w.DrainReleaseChan()
+		}
 	case "sts":
 		applyIdx(w.StsIdx, e)
 	case "dp":
